@@ -53,6 +53,12 @@ Theorem const_metric_faithful : forall fq help vars consts vt v lvs,
      exists e, new_const_metric d vt v lvs = Err e).
 Proof. exact C14_proofs.const_metric_faithful_lemma. Qed.
 
+(* NewConstMetricWithCreatedTimestamp decides exactly like NewConstMetric on counters and refuses every other type *)
+Theorem const_metric_ct_faithful : forall d vt v lvs,
+  (vt = 1 -> new_const_metric_ct d vt v lvs = new_const_metric d vt v lvs) /\
+  (vt <> 1 -> exists e, new_const_metric_ct d vt v lvs = Err e).
+Proof. exact C14_proofs.const_metric_ct_lemma. Qed.
+
 (* ---- classic const buckets / quantiles: exactly the given entries, strictly increasing when the given bounds
    are pairwise comparable (distinct, not NaN) ---- *)
 Theorem const_buckets_sorted : forall fq help vars consts count sum buckets lvs o,
